@@ -79,4 +79,19 @@ CHECKS = {
             R("TestC13_Gate", 20000, 600000),
         ],
     ),
+    "C01": dict(
+        level="exploration",
+        rule=("rapid state machine over growth-only histories: generated configuration (1-2 declarations of log/tx/trace shape with generated event ABI, shuffled columns; start in {head, 1, mid-chain}; batch_size 1..12 x concurrency 1..8 drawn independently), "
+              "generated chain contents (0-3 txs/block, 0-3 logs/tx: matching, decoy with other indexed layout, other signature, no topics; 0-2 traces), 2..14 interleaved grow/step actions (GrowthFaults adds transient RPC faults: 503, bad JSON, closed connection, truncated body), then settle. "
+              "Oracle: after every successful step and at quiescence table rows of the pair == independent projection of blocks first..position (multiset, column by column); per step: position advances by 1..batch_size contiguous blocks, rows only for those blocks, exactly one cursor row, failed/no-op steps commit nothing; at quiescence position == head. "
+              "non-trivial = >=2 successful steps and an indexed block contained a decoy log; distinct = distinct histories."),
+        assumptions=["fakepg implements the semantics of the statement shapes shovel emits (read-committed, unique indexes, no lock waits)",
+                     "open finding C01/trace-block-empty-result-stalls is removed from the generator by construction (every block has a trace when a trace declaration exists)",
+                     "field sets are drawn from the fields the planner tables list (others: C14)"],
+        units=[
+            R("TestC01_Growth", 3200, 80000, shards=16),
+            R("TestC01_GrowthFaults", 1600, 40000, shards=16),
+            P("TestC01_KnownFindings"),
+        ],
+    ),
 }
